@@ -77,6 +77,20 @@ def template(name):
             _c("sAC", "o", Obs("distance", "A", "C", stdev=7.0), noisy=False, fixed_err=0.3),
         ]
         return Template(name, pts, cand)
+    if name == "T2X":
+        # one new point seen along the coordinate axes only: the normal matrix is exactly diagonal, the xy
+        # covariance of P exactly 0 and q_yy > q_xx (heavier distances along x): major semi-axis along y,
+        # bearing 100 gon; subsets reach q_xx > q_yy as well
+        pts = [Pt("A", 0, 100, xy="fix"), Pt("B", 100, 0, xy="fix"), Pt("C", 200, 100, xy="fix"),
+               Pt("D", 100, 300, xy="fix"), Pt("P", 100, 100, xy="adj")]
+        cand = [
+            _c("sAP", "o", Obs("distance", "A", "P", stdev=5.0)),
+            _c("sBP", "o", Obs("distance", "B", "P", stdev=8.0)),
+            _c("sCP", "o", Obs("distance", "C", "P", stdev=4.0), noisy=False, fixed_err=0.5),
+            _c("sDP", "o", Obs("distance", "D", "P", stdev=9.0), noisy=False, fixed_err=-0.4),
+            _c("sPB", "o", Obs("distance", "P", "B", stdev=2.0), noisy=False, fixed_err=0.3),
+        ]
+        return Template(name, pts, cand)
     if name == "T1":
         # levelling: 2 fixed + 3 new heights, 6 height differences (dof 3 .. 0)
         pts = [Pt("H1", z=10.0, zs="fix"), Pt("H2", z=30.0, zs="fix"),
